@@ -336,9 +336,14 @@ def run_layouts(n):
 def _layout_run(args):
     seed, idx = args
     rng = random.Random(seed * 7001 + idx)
-    case = gen.make_case(rng, idx, groups=("core", "control"))
+    case = gen.make_case(rng, idx, groups=("core", "control", "stateful", "print"))
+    # components that keep their state under a generated name ('_intx_<hash of the component>': count(x), counter(), every() ...
+    # without a name qualifier, once/onchange markers): the results of a run include those variables, under the same names
+    # in every layout
+    _unname(case["prog"]["comps"], rng)
     out = []
     orig = lang.render_csvpath
+    runtrace.KEEP_INTERNAL = True
     for j, sep in enumerate([" ", "\n   ", " ~ note ~\n"]):
         c = dict(case)
         c["tid"] = idx * 4 + j
@@ -356,7 +361,17 @@ def _layout_run(args):
             lang.render_csvpath = orig
         if rec is not None:
             out.append((rec, {"csvpath": info["csvpath"], "records": info["records"]}))
+    runtrace.KEEP_INTERNAL = False
     return out
+
+
+def _unname(nodes, rng):
+    for n in nodes:
+        if n["k"] == "fn" and n["name"] in ("count", "counter", "every") and n["args"] and rng.random() < 0.6:
+            n["quals"] = [q for q in n["quals"] if q in lang.KEYWORDS]
+            n["name_q"] = ""
+            n["track"] = lang.NONE
+        _unname(n["args"], rng)
 
 
 def replay(path):
